@@ -765,6 +765,7 @@ def tune_vcs():
 
 # ------------------------------------------------------------------------------------------------ back end A: result_t
 H_R = 'specs/C13/result.h'
+CADICAL = ['--sat-solver', 'cadical']     # refuted obligations (mutants) are found in seconds instead of minutes with minisat
 TYPES_R = [(r'::RealScalar$', 'double'),
            (r'^nano::tensor1d_cmap_t$|tensor_t<nano::tensor_carray_storage_t, double, 1', 'struct nv_t1c'),
            (r'tensor_cmap_t<double, 1', 'struct nv_prow'), (r'CwiseBinaryOp<.*scalar_difference_op', 'struct nv_prow')]
@@ -777,7 +778,7 @@ RESULT_A = dict(self_struct='struct nv_result', types=TYPES_R,
 def result_targets():
     opt = Fn('result_optimum_trial', TU_R, 'optimum_trial', flt=FLT_R, **RESULT_A)
     clo = Fn('result_closest_trial', TU_R, 'closest_trial', flt=FLT_R, **RESULT_A)
-    return [Target('optimum_trial', [opt], H_R), Target('closest_trial', [clo], H_R)]
+    return [Target('optimum_trial', [opt], H_R, cbmc_flags=CADICAL), Target('closest_trial', [clo], H_R, cbmc_flags=CADICAL)]
 
 
 # ------------------------------------------------------------------------------------------------ back end A: tuner
@@ -829,10 +830,10 @@ def tuner_targets():
                       extra_params=['struct nv_igrid* igrid'], **TUNER_A)
     less = Fn('tuner_step_less', TU_U, 'operator<', flt='nano::operator<',
               select=lambda d: all('tuner_step_t' in t for t in astload.param_types(d)), **TUNER_A)
-    return [Target('evaluate', [ev(), op(), pred()], H_T),
-            Target('evaluate_op', [op(), pred()], H_T),
-            Target('evaluate_pred', [pred()], H_T),
-            Target('step_less', [less], H_T)]
+    return [Target('evaluate', [ev(), op(), pred()], H_T, cbmc_flags=CADICAL),
+            Target('evaluate_op', [op(), pred()], H_T, cbmc_flags=CADICAL),
+            Target('evaluate_pred', [pred()], H_T, cbmc_flags=CADICAL),
+            Target('step_less', [less], H_T, cbmc_flags=CADICAL)]
 
 
 def build(tier):
